@@ -20,12 +20,23 @@ class InternalCompilerError(Exception):
     """the compiler died with something that is not an NMFUError (a C18 matter, not a verdict of the csem properties)"""
 
 
+class SourceSyntaxError(InternalCompilerError):
+    """the source is not derivable from the grammar (Lark rejects it)"""
+
+
 def compile_program(nmfu, src, flags, name="p", path="p.nmfu"):
     """real front end + middle end + code generator. raises NMFUError subclasses for rejected programs."""
     PD = nmfu.ProgramData
     PD.load_commandline_flags(list(flags) + [path])
     PD.load_source(src)
-    tree = nmfu.parser.parse(src, start="start")
+    try:
+        tree = nmfu.parser.parse(src, start="start")
+    except Exception as e:
+        import lark
+        if isinstance(e, lark.LarkError):
+            # not derivable from the grammar: the driver reports a syntax error (outside every property's quantifier)
+            raise SourceSyntaxError(str(e)[:200]) from None
+        raise
     try:
         pctx = nmfu.ParseCtx(tree)
         pctx.parse()
